@@ -86,6 +86,10 @@ static Verdict run_c05(const Case &c)
     files.push_back(apply_edits(base, c.get("edits")));
     labels.push_back(c.get("edits"));
   }
+  // the intact file goes first through the same process: a modified file must be rejected no matter what
+  // was accepted before it
+  files.insert(files.begin(), base);
+  labels.insert(labels.begin(), "");
   v.classes.push_back("kind=" + kind);
   v.classes.push_back("cmode" + std::to_string(e.cmode));
   v.weight = files.size();
@@ -99,7 +103,14 @@ static Verdict run_c05(const Case &c)
       continue;
     if (f == base)
     {
-      v.classes.push_back("edit_is_identity");
+      if (r.st == CH_OK && (!r.vret || !r.dret || r.dout != e.P))
+      {
+        Verdict fl = Verdict::fail("the unmodified file is not accepted with the right key (harness expectation; see C01/C12)");
+        fl.nontrivial = true;
+        return fl;
+      }
+      if (i > 0)
+        v.classes.push_back("edit_is_identity");
       continue;
     }
     // information-carrying region touched?
